@@ -53,10 +53,12 @@ var c10Runs = []c10RunSpec{
 	{Name: "call depth limit", Prog: `function r(n) { return r(n + 1) } BEGIN { print 1; r(0) }`},
 	{Name: "fuzzing loop limit", Prog: `BEGIN { while (1) { i++ } }`, Fuzzing: true},
 	{Name: "syntax error", Prog: `BEGIN { print 1 ) }`},
-	{Name: "JSON error", Prog: `{ print }`, Input: `[1,2] [3`, HasIn: true},
+	{Name: "JSON error", Prog: `{ print }`, Input: "[1,2] 5 \"x\" {\"a\":1}\n[7,8] [3", HasIn: true}, // several complete values before the truncated one
 	{Name: "selector run", Prog: `{ print $index, $ }`, Input: `{"a":[{"x":1,"y":2},5],"b":1}`, HasIn: true, Sels: []string{"$.a", "$.b"}},
 	{Name: "12-key object printed and iterated", Prog: `{ print; for (k, v in $) print k, v; print $.pluck("k03", "k01") }`, Input: "", HasIn: true},
 	{Name: "JSON output of a mutated document", Prog: `{ $.z = [$.b, {q: 1, p: 2}]; $.a.push(9) }`, Input: `{"b":"s","a":[1]}`, HasIn: true, Root: true},
+	{Name: "variables named like the builtins", Prog: `BEGIN { num = 5; json = "x"; for (printf in [1, 2]) { } print num, json, printf }`},
+	{Name: "the builtins", Prog: `BEGIN { print num("12.5"), num("x"), json([1, {a: null}]); printf("%s|%3v\n", "s", 7) }`},
 	{Name: "length of a fresh three-key object literal", Prog: `BEGIN { print {a: 1, b: 2, c: 3}.length(), "x".length(), [].length() }`},
 }
 
@@ -314,16 +316,16 @@ func init() {
 	n := len(c10Runs)
 	fw.Register(&fw.Prop{
 		ID: "C10",
-		Rule: "alphabet of 16 runs that touch every piece of process-global state (method lookups on all four prototypes, nested and failing method calls, a method cell called without a fresh lookup, depth and loop limits, syntax and JSON errors, selectors, a 12-key object, JSON output); " +
+		Rule: "alphabet of 18 runs that touch every piece of process-global state (method lookups on all four prototypes, nested and failing method calls, a method cell called without a fresh lookup, depth and loop limits, syntax and JSON errors, selectors, a 12-key object, JSON output); " +
 			"(i) explicit-state breadth-first search over run histories with the fingerprint of the package-level state (hook VerifGlobals) as state: from every reachable state every run is executed and compared with its fresh-process result, until the reachable set closes; " +
 			"(ii) every history of <= L runs in its own fresh process without any reset, every run compared with (iii); (iii) each run as the first run of a fresh process, 25 times, plus 24 in-process repetitions and 12 invocations of the real binary: all byte-identical; " +
 			"the package-level variables of /repo/src are listed with go/parser on every run: one that is neither fingerprinted nor reviewed as never-assigned withdraws the closure argument (recorded, never an alarm); states = global-state fingerprints reached; non-trivial = same",
 		Plan: func(t fw.Tier) int { return 1 + n + n*n },
 		Bound: func(t fw.Tier) string {
 			if t == fw.Thorough {
-				return "global-state graph closed; all histories of <= 4 runs over 16 runs, each in a fresh process"
+				return "global-state graph closed; all histories of <= 4 runs over 18 runs, each in a fresh process"
 			}
-			return "global-state graph closed; all histories of <= 3 runs over 16 runs, each in a fresh process"
+			return "global-state graph closed; all histories of <= 3 runs over 18 runs, each in a fresh process"
 		},
 		Assumptions: []string{"no model: the oracle is equality with the fresh-process execution", "Go's map iteration randomisation is not controlled: 12-key objects and 24+ repetitions make an order-dependent output differ with overwhelming probability", "the closure argument of (i) assumes VerifGlobals sees all mutable package-level state; the go/parser scan withdraws it otherwise"},
 		Run: func(c *fw.Ctx, u int) {
